@@ -54,7 +54,7 @@ EMODE_EXEMPT = {
 }
 
 
-def run(ctx):
+def _run(ctx):
     prog = ctx.prog
     bv = prog.find_fns({"name": "validate", "crate": "marginfi", "self_adt": "BankConfig"})
     ev_ = prog.find_fns({"name": "validate_entries_with_liability_weights", "crate": "marginfi", "self_adt": "EmodeSettings"})
@@ -241,3 +241,12 @@ def run(ctx):
             ctx.inst("C13.R3", "configure/cannot-leave-killed", bool(cur_ne), "no admin can take a bank out of KilledByBankruptcy", "", cf.bloc(bi))
     else:
         ctx.missing("C13.R3", "Bank::configure")
+
+
+def run(ctx):
+    from .kernels import check_kernels
+    try:
+        _run(ctx)
+    finally:
+        # numeric kernels this property's formulas rest on, pinned as canonical expression trees
+        check_kernels(ctx, "C13.K", ['calculate_max_leverage'])
